@@ -12,7 +12,8 @@ RULE = ("worlds: for each of the 7 BSP configurations (v19, v20, v21, L4D2 heade
         "of the 13 static-prop versions (quick: the full 7 x 13 product once; thorough: ten times, sizes 1..4; plus extra worlds per "
         "configuration until every view has been non-empty there) a consistent object graph for all 20 structured views is generated "
         "(list sizes 0..4, an all-empty world, float32-exact numbers incl. -0.0/denormal/max, every enum member, random flag "
-        "subsets incl. all-bits, shared sub-objects: faces sharing planes/texinfo/orig faces/edge slices, slices running past the "
+        "subsets incl. all-bits, for every kind of object an EQUAL-but-distinct twin and a twin that agrees on the likely de-duplication key "
+        "(material / model / texture name incl. case variants, geometry, referenced objects) but differs elsewhere, shared sub-objects: faces sharing planes/texinfo/orig faces/edge slices, slices running past the "
         "end of a shared list plus fresh objects, entities sharing a brush model, leafs sharing faces/brushes), assigned, saved, "
         "re-opened and compared field by field (deep canonical dump); a case = one (configuration, prop version, world seed); "
         "non-trivial = at least one non-empty view. struct layer: every extracted format string x boundary/random/out-of-range/"
@@ -37,7 +38,8 @@ NOT_MODELLED = [
     "overlays, surfedges/edges, water leaf info, detail props: struct layer (format equality reader=writer per layout, arity and range "
     "behaviour) is modelled and proved; the field-order glue and cross-lump index rebuilding are covered by the round trip on the "
     "implementation only (find_or_insert/find_or_extend themselves are modelled and proved)",
-    "planes, vertexes, cubemaps, leafmindisttowater, overlay fades/levels, texture name table, visibility lump, static-prop lump: "
+    "planes, vertexes, cubemaps, leafmindisttowater, overlay fades/levels, texture name table, texdata table (index per texinfo + record order, "
+    "keyed on object identity), visibility lump, static-prop lump: "
     "byte-compared with the model encoders on every explored world (record-level theorems: C11_struct_records + per-lump corollaries "
     "listed in docs/notes/C11.md)",
     "pakfile lump (zipfile), LZMA-compressed lumps, lump header table and game-lump directory: property C10",
@@ -468,6 +470,26 @@ def _lump_requests(res, cfg):
     tbl = L('TEXDATA_STRING_TABLE')
     offs = list(struct.unpack('<%di' % (len(tbl) // 4), tbl))
     reqs.append(({'op': 'tex_read', 'data': list(L('TEXDATA_STRING_DATA')), 'offs': offs}, {'names': names}, 'textures:read'))
+    # texdata table: the index in every texinfo record and the order of the texdata records follow from keying the
+    # writer's table on the TexData *object* (model: C11.texdataTable with the identity key)
+    w0 = res['world']
+    if w0.texinfo:
+        tds = w0.texdatas
+        ids = [next(i for i, t in enumerate(tds) if t is info._info) for info in w0.texinfo]
+        ti = L('TEXINFO')
+        file_idx = [struct.unpack_from('<i', ti, 72 * k + 68)[0] for k in range(len(ti) // 72)]
+        td = L('TEXDATA')
+        rec = 24 if cfg == 'vitamin' else 32
+        file_td = [struct.unpack_from('<3I', td, rec * k) + struct.unpack_from('<ii', td, rec * k + 16) for k in range(len(td) // rec)]
+
+        def want_texdata(rep, ids=ids, file_idx=file_idx, file_td=file_td, tds=tds):
+            if rep.get('idx') != file_idx[:len(ids)]:
+                return f'texdata index per texinfo: file {file_idx[:len(ids)]} model {rep.get("idx")}'
+            exp = [tuple(W.f32bits(x) for x in tds[o].reflectivity) + (tds[o].width, tds[o].height) for o in rep['order']]
+            if exp != [tuple(r) for r in file_td[:len(exp)]] or len(file_td) != len(exp):
+                return f'texdata records: file {file_td} model order {rep["order"]} -> {exp}'
+            return None
+        reqs.append(({'op': 'texdata', 'ids': ids}, want_texdata, 'texdata-table'))
     vis = c.visibility
     if vis is not None:
         pv, pa = [list(r) for r in vis.potentially_visible], [list(r) for r in vis.potentially_audible]
@@ -606,7 +628,11 @@ def _corr_lumps(ctx, drv):
     for (case, want, what), rep in zip(meta, drv.batch(allreq)):
         ctx.traces_vs_impl += 1
         ctx.count('lump-bytes:' + what)
-        if rep != want:
+        if callable(want):
+            err = want(rep)
+            if err:
+                ctx.disagree(dict(case, lump=what), err[:400], str(rep)[:300], 'lump bytes / model encoder: ' + what)
+        elif rep != want:
             ctx.disagree(dict(case, lump=what), str(want)[:300], str(rep)[:300], 'lump bytes / model encoder: ' + what)
 
 
